@@ -2385,6 +2385,7 @@ def main(tier, replay=None):
     ncorr = 0
     tie_by = {}
     judged_by = {}
+    cpu_retries = {}
     dist_dom, dist_pat = {}, {}
     for i, c in enumerate(cases):
         if outs[i] is None:
@@ -2401,10 +2402,17 @@ def main(tier, replay=None):
         d.update({"exe": c.exe, "dests": c.dests, "reads": c.reads})
         if i % 4999 == 0:
             s = dict(d); s["impl"] = outs[i]; chk.sample(s)
+        if po is None and outs[i].strip() == "NOT-RUN-AFTER-TIMEOUTS":
+            chk.fail_input(c.site, klass, d, "a result", "not run", "not run: three earlier cases of this operation did not return within their CPU budget in this harness process")
+            continue
+        if po is None and outs[i].rstrip().endswith(" CRASH 24") and cpu_retries.get(c.site, 0) >= 2:
+            chk.fail_input(c.site, klass, d, "a result", "does not return", "does not return within its CPU budget (two cases of this site were already re-run alone with the large budget) :: " + outs[i])
+            continue
         if po is None and outs[i].rstrip().endswith(" CRASH 24"):
+            cpu_retries[c.site] = cpu_retries.get(c.site, 0) + 1
             # SIGXCPU: the case used up its CPU budget.  Re-run that one case alone with a six times larger budget before
             # calling it a call that does not return (CPU time does not depend on the machine load).
-            rc2, o2, e2 = _run_lines_env(exes[c.exe], c.line() + "\n", timeout=1500, env_extra={"C15_CPU_BUDGET": "120"})
+            rc2, o2, e2 = _run_lines_env(exes[c.exe], c.line() + "\n", timeout=1500, env_extra={"C15_CPU_BUDGET": "60"})
             if rc2 == 0 and len(o2) == 1 and " CRASH " not in o2[0]:
                 outs[i] = o2[0]
                 po = parse_out(outs[i], c.n)
@@ -2412,7 +2420,7 @@ def main(tier, replay=None):
             elif rc2 == 0 and len(o2) == 1 and o2[0].rstrip().endswith(" CRASH 24"):
                 which = "aliased call (%s)" % pat if outs[i].startswith("F ") else "call on distinct objects"
                 chk.fail_input(c.site + ("" if outs[i].startswith("F ") else " (distinct objects)"), klass if outs[i].startswith("F ") else "distinct objects",
-                               d, "a result", "does not return", "%s: does not return within 120 s of CPU time (re-run alone) :: %s" % (which, o2[0]))
+                               d, "a result", "does not return", "%s: does not return within 60 s of CPU time (re-run alone) :: %s" % (which, o2[0]))
                 continue
         if po is None and " CRASH " in outs[i]:
             sig = outs[i].split(" CRASH ")[1].strip()
